@@ -72,6 +72,11 @@ impl Rec {
         self.env.mk_choice(hi, self.map[v], lo)
     }
 
+    pub fn uniform_node(&self, r: &mut StdRng) -> Node {
+        let tt: Vec<bool> = (0..(1usize << self.nv)).map(|_| r.gen_bool(0.5)).collect();
+        self.from_table(&tt, 1)
+    }
+
     /// a random function: random truth table of random density, or a random and/or/not/xor term
     pub fn random_node(&self, r: &mut StdRng) -> Node {
         match r.gen_range(0..10) {
@@ -276,16 +281,18 @@ pub fn run(args: &[String]) -> Value {
             }
         }
     } else {
+        // mode "uniform": operands are uniformly random truth tables (every function equally likely)
+        let uniform = mode == "uniform";
         for _ in 0..count {
             for k in &kinds {
-                let f = rec.random_node(&mut r);
+                let f = if uniform { rec.uniform_node(&mut r) } else { rec.random_node(&mut r) };
                 distinct.insert(f.get_hash());
                 match *k {
                     "model" => rec.rec_model(&f),
                     "retain" => rec.rec_retain(&f),
                     "not" => rec.rec_not(&f),
                     "bin" => {
-                        let g = rec.random_node(&mut r);
+                        let g = if uniform { rec.uniform_node(&mut r) } else { rec.random_node(&mut r) };
                         rec.rec_bin(BINOPS[r.gen_range(0..8)], &f, &g)
                     }
                     "ite" => {
